@@ -62,7 +62,7 @@ def run(ck, progs):
         ck.guard("C01-b DECISION miss", lambda: c01b(ck, prog))
         ck.guard("C01-c REACH search", lambda: c01c(ck, prog))
         ck.guard("C01-d ORDER child order", lambda: c01d(ck, prog))
-        ck.guard("C01-e GUARD handler kept", lambda: c01e(ck, prog, final_builder(prog)))
+        ck.guard("C01-e GUARD handler kept", lambda: c01e(ck, prog, final_builder_view(prog)))
         ck.guard("C01-f GUARD segment boundary", lambda: c01f(ck, prog))
         ck.guard("C01-g INVARIANT one param child", lambda: c01g(ck, prog))
     ck.config = None
@@ -212,9 +212,15 @@ def c01a(ck, prog):
     sites += 1
     seen = set()
     for c in af.calls_to(r"base::Node::apply_fangs$"):
-        m = re.search(r"arg1\.(\w+)$", decision.describe_deep(af, c.args[0], 3))
+        d = decision.describe_deep(af, c.args[0], 8)
+        m = re.search(r"^arg1\.(\w+)$", d)
         if m:
             seen.add(m.group(1))
+            continue
+        # `for root in [&mut self.GET, ..] { root.apply_fangs(..) }`: the receiver is the element of an iterated array literal
+        m = re.match(r"^next\((?:into_iter|iter_mut|iter)\(array\{([^{}]*)\}\)\)@Some\.0$", d)
+        if m:
+            seen.update(x.group(1) for x in re.finditer(r"(?:^|,)arg1\.(\w+)(?=,|$)", m.group(1)))
     ok = seen == set(METHODS)
     ck.ob(R, "apply_fangs:coverage", ok, af.loc(None), "" if ok else "Router::apply_fangs reaches trees %s: fangs would not run for the other methods" % sorted(seen), how="6 trees")
     ck.floor(R, "dispatch sites", sites, 5)
@@ -268,11 +274,29 @@ def final_builder(prog):
     return fr[0]
 
 
+def node_helper(caller, callee):
+    """local helpers that work on the base::Node being converted (compression / ordering moved out of `from`)"""
+    return (callee.crate == caller.crate and callee.argc >= 1 and len(callee.locals) > 1
+            and re.search(r"^(&(?:'\w+ )?mut )?ohkami::router::base::Node$", callee.locals[1] or "") is not None
+            and not callee.calls_to(r"FangsList::into_proc_with$"))
+
+
+def final_builder_view(prog):
+    return prog.inlined(final_builder(prog), 2, node_helper)
+
+
+def on_arg1(f, place):
+    """does the place name (a field of) the first parameter, directly or through a reference to it handed to a helper?"""
+    if place[0] == 1:
+        return True
+    return re.match(r"^arg1(\.|$)", decision.describe_deep(f, ["c", [place[0], []]], 4)) is not None
+
+
 def c01d(ck, prog):
     """The search tries children in slice order and commits to the first match, so `static before param` and
     `longer static before its prefix` hold only if the final children are sorted -- after every mutation of the list."""
     R = "C01-d ORDER child order"
-    f = final_builder(prog)
+    f = final_builder_view(prog)
     sb = [c for c in f.calls() if c.name in ("sort_by", "sort_unstable_by", "sort_by_key", "sort", "sort_by_cached_key") and "children" in decision.describe_deep(f, c.args[0], 3)]
     ok = len(sb) == 1
     ck.ob(R, "children-sorted", ok, f.loc(None), "" if ok else "the final node's children are sorted %d times" % len(sb), how="base.children.sort_by(..)", nontrivial=False)
@@ -296,8 +320,12 @@ def c01d(ck, prog):
     # comparator: static before param; statics in reverse lexical order (a longer static before its own prefix)
     clos = f.origin(srt.args[1])
     cf = prog.fns.get(clos[-1][1][1].get("def")) if clos and clos[-1][0] == "agg" else None
+    A, B = "arg2", "arg3"    # a closure's own parameters follow its environment
+    if cf is None and clos and clos[-1][0] == "const" and clos[-1][1].get("fn"):
+        cf = prog.fns.get(clos[-1][1]["fn"])     # a named comparator function
+        A, B = "arg1", "arg2"
     if cf is None:
-        ck.ob(R, "comparator", False, f.loc(srt.sp), "the comparator is not a closure literal")
+        ck.ob(R, "comparator", False, f.loc(srt.sp), "the comparator is neither a closure literal nor a local function")
         return
     tab = {}
     for conds, val in decision.const_table(cf, prog):
@@ -306,12 +334,19 @@ def c01d(ck, prog):
     ok = tab.get(("Static", "Param"), "").startswith("Less") and tab.get(("Param", "Static"), "").startswith("Greater") and tab.get(("Param", "Param"), "").startswith("Equal")
     ck.ob(R, "comparator:static-before-param", ok, cf.loc(None), "" if ok else "the child comparator is %r: a static alternative must sort before a param alternative" % tab, how="(Static, Param) => Less, (Param, Static) => Greater, (Param, Param) => Equal")
     ss = tab.get(("Static", "Static"), "")
-    ok = ss.startswith("reverse(cmp(") and re.search(r"arg2.*arg3|@Static", ss) is not None
+    c = [x for x in cf.calls() if x.name == "cmp"]
+    ok = len(c) == 1
     if ok:
-        # a.cmp(b).reverse(): first operand from the first closure argument
-        c = [x for x in cf.calls() if x.name == "cmp"]
-        ok = len(c) == 1 and "arg2" in decision.describe_deep(cf, c[0].args[0], 6) and "arg3" in decision.describe_deep(cf, c[0].args[1], 6)
-    ck.ob(R, "comparator:statics-reverse-lexical", ok, cf.loc(None), "" if ok else "static siblings are ordered by `%s`, expected a.cmp(b).reverse() (so that `/users` is tried before `/user`)" % ss[:60], how="(Static(a), Static(b)) => a.cmp(b).reverse()")
+        # a.cmp(b).reverse() or b.cmp(a): operands traced to the comparator's two parameters
+        first, second = decision.describe_deep(cf, c[0].args[0], 6), decision.describe_deep(cf, c[0].args[1], 6)
+        has = lambda d, x: re.search(r"\b%s\b" % x, d) is not None
+        if ss.startswith("reverse(cmp("):
+            ok = has(first, A) and has(second, B) and not has(first, B) and not has(second, A)
+        elif ss.startswith("cmp("):
+            ok = has(first, B) and has(second, A) and not has(first, A) and not has(second, B)
+        else:
+            ok = False
+    ck.ob(R, "comparator:statics-reverse-lexical", ok, cf.loc(None), "" if ok else "static siblings are ordered by `%s`, expected a.cmp(b).reverse() or b.cmp(a) (so that `/users` is tried before `/user`)" % ss[:60], how="(Static(a), Static(b)) => a.cmp(b).reverse() / b.cmp(a)")
 
 
 def c01e(ck, prog, f):
@@ -323,7 +358,7 @@ def c01e(ck, prog, f):
     loops = natural_loops(f)
     n = 0
     for bi, st, agg in decision.field_stores(f, "handler"):
-        if st["p"][0] != 1:
+        if not on_arg1(f, st["p"]):
             continue
         inner = [h for h, body in loops.items() if bi in body]
         if not inner:
